@@ -76,7 +76,7 @@ def gen(rng, tier):
             'maxlen': maxlen, 'classes': classes, 'longs': longs, 't0': t0,
             'online_cls': 'dt_on' if rng.random() < 0.6 else 'dt', 'offline_cls': 'dt_off' if rng.random() < 0.5 else 'dt',
             'set_sampling': True if (P, pu, tol) != (1, 's', 0.1) else rng.random() < 0.5,
-            'semantics': semantics}
+            'semantics': semantics, 'reparse': rng.random() < 0.25}
 
 
 def period_in_stamp_unit(sc):
@@ -156,6 +156,8 @@ def spec_desc(sc, cls):
         d['sampling'] = [sc['period'], sc['pu'], sc['tol']]
     if sc.get('semantics'):
         d['semantics'] = sc['semantics']      # the counter does not depend on the (interface-aware) semantics of the monitor
+    if sc.get('reparse'):
+        d['prior'] = {'spec': 'out = (%s) >= (0.0);' % sc['vars'][0], 'unit': d.get('unit'), 'sampling': d.get('sampling')}   # parsed twice (new text)
     return d
 
 
